@@ -29,8 +29,8 @@ ASSUMPTIONS = [
     "lines whose fragments the sampler cannot instantiate are skipped and counted (skipped_unsampled)",
 ]
 EXHAUSTIVE = {"quick": True, "thorough": True}
-FLOORS = {"quick": {"A_matches": 5000, "A_reverse": 2000, "B_rules": 150, "C_lines": 1500, "C_rows": 10000},
-          "thorough": {"A_matches": 5000, "A_reverse": 2000, "B_rules": 150, "C_lines": 1500, "C_rows": 10000}}
+FLOORS = {"quick": {"A_matches": 5000, "A_reverse": 2000, "B_rules": 150, "B_ignore_rules": 100, "C_lines": 1500, "C_rows": 10000},
+          "thorough": {"A_matches": 5000, "A_reverse": 2000, "B_rules": 150, "B_ignore_rules": 100, "C_lines": 1500, "C_rows": 10000}}
 PREFIXES = ["undo", "no", "delete", "remove", "-"]
 VENDOR_BY_PREFIX = {"undo": "huawei", "no": "cisco", "delete": "juniper", "remove": "routeros", "-": "pc"}
 TOKS = ["a", "b", "*", "*/[ab]+/"]
@@ -252,6 +252,24 @@ def run_B(spec, acc):
                     if got_rev != R.reverse(p, prefix, exp):
                         acc.violation("C07/B/reverse-template", "removal command template of a compiled patching rule is wrong",
                                       {"pattern": p, "row": r, "vendor": vendor, "expected": R.reverse(p, prefix, exp), "got": got_rev})
+        # filter ACLs (--filter-acl / --filter-ifaces / --filter-peers) are compiled with allow_ignore=True and may hold '!'-rules:
+        # an ignore rule recognises the same rows, directly and in negated form, as the plain rule
+        ipats = [q for q in pats if not q.startswith("-")]
+        icomp = compile_acl_text("\n".join("!" + q for q in ipats), vendor, True)["local"]
+        for q in ipats:
+            rule = icomp.get("!" + q) or icomp.get("!" + " ".join(q.split()))
+            if rule is None or rule["type"] != "ignore":
+                acc.violation("C07/B/rule-lost", "the ACL compiler lost an ignore rule of the text", {"pattern": "!" + q, "vendor": vendor})
+                continue
+            acc.count("B_ignore_rules")
+            exp_rp = " ".join(R.reverse_words(q, prefix))
+            for r in probe_rows:
+                for which, rx, e in (("direct", rule["attrs"]["direct_regexp"], R.match(q, r)), ("reverse", rule["attrs"]["reverse_regexp"], R.match(exp_rp, r))):
+                    m = rx.match(r)
+                    got = None if m is None else tuple(m.groups())
+                    if got != e:
+                        acc.violation("C07/B/acl-ignore-rule-%s-recogniser" % which, "an ignore rule of a filter ACL does not recognise the rows its pattern (or its negated form) means",
+                                      {"pattern": "!" + q, "row": r, "vendor": vendor, "expected_key": e, "got_key": got})
     acc.sample({"shared_text_lines": pats[:8], "probe_rows": probe_rows[:8]})
     run_B_nested(acc)
 
